@@ -67,6 +67,9 @@ def run(ctx):
     cmd = [binp, "-seed", str(ctx["seed"]), "-tier", ctx["tier"], "-out", out, "-n", str(n), "-repo", vlib.REPO]
     if ctx["replay"]:
         cmd += ["-replay", ctx["replay"]]
+    if os.environ.get("VERIF_C13_REPAIRS") and vlib.REPO != "/repo":
+        # self-tests on scratch copies that contain proposed repairs: compare with the repaired model
+        cmd += ["-repairs", os.environ["VERIF_C13_REPAIRS"]]
     rc, o = vlib.run(cmd, timeout=3000)
     if rc != 0:
         t.errors.append("harness failed: " + o[-2000:])
